@@ -31,6 +31,10 @@ pub const TOKENS: &[&[u8]] = &[
     b"\xef\xbb\xbf",
     b"<svg>",
     b"</svg>",
+    // upper / mixed case names, a custom element whose name extends a raw-text element name
+    b"<P Class=K>",
+    b"</TITLE>",
+    b"<title-bar>",
 ];
 
 pub const CONTEXTS: &[&str] = &["", "script", "style", "textarea", "title", "plaintext", "iframe", "noembed", "noframes", "noscript", "xmp", "div"];
@@ -74,6 +78,15 @@ pub fn check_input(input: &[u8], context: &str) -> Result<String, (String, Strin
                 rebuilt.extend(t.buffered());
                 break;
             }
+            // the invariant holds after EVERY token, not only at the end: spans so far + unread remainder == input; asking for
+            // the remainder (twice) is an observation, it must not change anything
+            {
+                let rest = t.buffered();
+                let rest2 = t.buffered();
+                if rest != rest2 || rebuilt.len() + rest.len() != input.len() || input[rebuilt.len()..] != rest[..] {
+                    return Err(("not-lossless".into(), format!("after token #{n}: spans so far ({} bytes) + buffered() ({} bytes, second call {} bytes) do not reproduce the input ({} bytes)", rebuilt.len(), rest.len(), rest2.len(), input.len())));
+                }
+            }
             if raw.is_empty() {
                 return Err(("empty-token".into(), format!("token #{n} of kind {tt:?} has an empty raw span")));
             }
@@ -111,6 +124,10 @@ pub fn check_input(input: &[u8], context: &str) -> Result<String, (String, Strin
                 }
                 if let Err(e) = t.token() {
                     return Err(("accessor-error".into(), format!("token() failed on valid UTF-8 input: {e}")));
+                }
+                // reading a token through its accessors is an observation too: its raw span is what it was
+                if t.raw() != raw {
+                    return Err(("not-lossless".into(), format!("raw() of token #{n} changed after its accessors were called: {:?} -> {:?}", String::from_utf8_lossy(&raw), String::from_utf8_lossy(&t.raw()))));
                 }
             } else {
                 // accessors must not panic on invalid UTF-8 either (Err is fine)
